@@ -465,6 +465,11 @@ def check(ctx):
                              "distribution's default bijector (bijector=None)", ok,
                detail=short(t))
 
+    # ---- shared mechanisms: the neighbour's rules run as obligations of this property
+    ctx.include("C01", "C14.R4", only=['C01.R8'])
+    ctx.include("C18", "C14.R4", only=['C18.R2'])
+    ctx.rule("R4", "shared mechanisms, run as obligations of this property: values read while transforming come from a swept model: only the sweep sites call node.update() (C01.R8); liesel's own bijector has consistent log-det-Jacobians (C18.R2).")
+
 
 def _flags_of_dist(ctx, fi, dist_node, res):
     ok_seed = (is_call(dist_node, f"{NODES}.Dist")
